@@ -5,7 +5,7 @@
 D="$(readlink -f "$1")"; FEAT="${2:-}"
 W="$(mktemp -d /tmp/seedwt.XXXXXX)"; rmdir "$W"
 git -C /repo worktree add -q --detach "$W" HEAD || exit 2
-trap 'git -C /repo worktree remove --force "$W" >/dev/null 2>&1; rm -rf "$W"' EXIT
+trap 'git -C /repo worktree remove --force "$W" >/dev/null 2>&1; rm -rf "$W" "$W.demo_keep.rs"' EXIT
 cd "$W"
 APPLY=clean
 git apply --whitespace=nowarn "$D/patch.diff" 2>/dev/null || { patch -p1 -s -F 3 --no-backup-if-mismatch < "$D/patch.diff" >/dev/null 2>&1 && APPLY=fuzz || APPLY=FAIL; }
@@ -16,9 +16,9 @@ T1=$(cargo test --offline 2>&1 | grep -a -E "^test result" | awk '{p+=$4; f+=$6}
 T2=$(cargo test --offline --features core,json 2>&1 | grep -a -E "^test result" | awk '{p+=$4; f+=$6} END{print p"/"f}')
 cp "$D/demo.rs" tests/seed_demo.rs
 DW=$(timeout 600 cargo test --offline $FARG --test seed_demo 2>&1 | grep -a -E "^test result" | awk '{p+=$4; f+=$6} END{print p"/"f}')
-cp tests/seed_demo.rs /tmp/.seed_demo_keep.rs
+cp tests/seed_demo.rs "$W.demo_keep.rs"
 git checkout -q -- . ; git clean -fdq -e target
-cp /tmp/.seed_demo_keep.rs tests/seed_demo.rs
+cp "$W.demo_keep.rs" tests/seed_demo.rs
 DWO=$(timeout 600 cargo test --offline $FARG --test seed_demo 2>&1 | grep -a -E "^test result" | awk '{p+=$4; f+=$6} END{print p"/"f}')
 
 echo "{\"seed\":\"$1\",\"apply\":\"$APPLY\",\"suite_default_pass_fail\":\"$T1\",\"suite_corejson_pass_fail\":\"$T2\",\"demo_with_patch_pass_fail\":\"$DW\",\"demo_without_patch_pass_fail\":\"$DWO\"}"
